@@ -161,6 +161,20 @@ def run(chk):
                             chk.violation("type-view:" + key, "thread row %d shows task type %d at t=%d, the running body's task has type %d" % (g[t] + 1, gotty, clk - t0, wantty),
                                           {"scenario": desc})
                             break
+                        # rank (shown as rank + 1, only for processes that have one) and application id
+                        rk = s.threads[t].get("rank")
+                        wantr = (rk + 1) if (running and tst == "Running" and rk is not None) else 0
+                        gotr = emucore.timeline(r["rows"].get((0, g[t] + 1, ty["rank"]), []), clk - t0)
+                        if gotr != wantr:
+                            chk.violation("rank-view:" + key, "thread row %d shows rank value %d at t=%d, expected %d (running body %s, thread %s, process rank %s)" % (
+                                g[t] + 1, gotr, clk - t0, wantr, running, tst, rk), {"scenario": desc})
+                            break
+                        if "app" in ty:
+                            wanta = s.threads[t].get("app", 1) if (running and tst == "Running") else 0
+                            gota = emucore.timeline(r["rows"].get((0, g[t] + 1, ty["app"]), []), clk - t0)
+                            if gota != wanta:
+                                chk.violation("app-view:" + key, "thread row %d shows app id %d at t=%d, expected %d" % (g[t] + 1, gota, clk - t0, wanta), {"scenario": desc})
+                                break
                         if "body" in ty:
                             wantb = (running[1] if running[1] else 1) if (running and tst == "Running") else 0
                             gotb = emucore.timeline(r["rows"].get((0, g[t] + 1, ty["body"]), []), clk - t0)
